@@ -44,6 +44,11 @@ def gen(r, tier, sub):
             # an argument that encodes on the driver and cannot be decoded by a worker
             yield "%s ;; E3 ver:1" % cfg
             yield "%s ;; E3 ver:2" % cfg
+        # a cluster that is out of capacity (no machine is ever delivered): an argument that cannot be encoded must still fail
+        # at once, with its cause — not wait for a machine
+        for cfg in ("bm M2 P2 NOMACH", "bm M1 P2 MC NOMACH"):
+            yield "%s ;; E1 fn" % cfg
+            yield "%s ;; E2 ch" % cfg
         return
     if sub == "C16":
         maxlen = 3 if tier == "quick" else 4
